@@ -35,7 +35,7 @@ REQUIRED_LABELS = {"kind:exp": 0.15, "kind:outer": 0.15, "kind:sqrt": 0.1, "kind
 
 
 def budget(tier):
-    n = int(os.environ.get("KV_EXAMPLES", 0)) or (4000 if tier == "quick" else 50000)
+    n = int(os.environ.get("KV_EXAMPLES", 0)) or (16000 if tier == "quick" else 50000)
     return {"examples": n, "shards": 16, "wall": 100 if tier == "quick" else 1200}
 
 
